@@ -36,6 +36,10 @@ CHECKS = {
    technique="translation validation of each optimizer pass's actual output: the real pass runs natively on each grammar of an enumerated family, then z3 decides, over fully symbolic UTF-8 input up to N bytes, the equivalence of the reference semantics of the rules before and after the pass (restore_on_err: after-side executed by the real VM from MIR)",
    text="For every grammar of the family (shapes aimed at each rewrite and near-miss permutations of each rewrite pattern, all bounded repetitions, stack operations under choice/optional/repetition, plus the seeded C01 family; 600 quick / 1600 thorough) each of rotate, skip, unroll, concatenate, factor, list runs through the real code (cfg-guarded hook) alone and in its pipeline position; wherever a pass changed the rules, acceptance, consumed length, tokens and final stack of before/after are compared on every input class of 0..N bytes (N=3/5). restore_on_err is validated by running the real VM (MIR) on its output against the reference on its input. The whole pipeline against the VM is C01.",
    note="What is executed symbolically is the semantics of the pass's input and output, not the pass (its input is a grammar, which cannot be made symbolic at useful size): a pass is only validated on the enumerated grammars. Trusted: reference semantics, z3, for restore_on_err the executor as in C01. Known findings: list rewrite, unroll trailing implicit skip."),
+ "C06": dict(level="other", design="§5 C06", engine="M",
+   technique="real validator run natively on an enumerated family of grammar texts; for each accepted grammar z3 searches every input up to N bytes for a path of the reference PEG semantics that re-enters a rule or iterates a repetition without consuming (sound non-termination witness), replayed on the real VM under a call limit; rejected grammars are checked against the syntactic sufficient condition",
+   text="Reduced form of the property: the validator cannot be executed symbolically (ParserRule trees, HashMap, format!), so it runs natively on 500 (quick) / 4000 (thorough) grammar texts: every operator (? * + {n} {n,} {,n} {m,n} ! & parentheses) around a leftmost self or mutual reference, with every kind of nullable / non-progressing / progressing left neighbour, in sequences and choices, plus repetition-body and WHITESPACE/COMMENT-body shapes. For accepted grammars the solver decides over all inputs of 0..N bytes (N=2/3) whether the reference semantics can re-enter a rule at an unchanged (position, stack depth, mode); a witness is confirmed by the real VM exhausting a call limit or its stack. Grammars meeting the statement's sufficient condition must be accepted.",
+   note="Exhaustive only over the enumerated family and input bound. Trusted: reference semantics; the sufficient-condition predicate (30 lines); z3. Grammars using stack built-ins are outside the property."),
 }
 
 NOT_APPLICABLE = {
